@@ -472,6 +472,198 @@ catalogue! {
     model = |x| x.is_finite() && *x >= -1e308 && *x <= 1e308;
     class = |s| class_num_str(s, Some(-1e308), Some(1e308));
 
+    #[nutype(validate(greater_or_equal = 0.1, less_or_equal = 0.1), derive(Debug, Arbitrary))]
+    struct F64Single01(f64);
+    family = "float";
+    model = |x| *x == 0.1;
+    class = |s| class_num_str(s, Some(0.1f64 as f64), Some(0.1f64 as f64));
+
+    #[nutype(validate(greater_or_equal = 36.6, less_or_equal = 36.6), derive(Debug, Arbitrary))]
+    struct F32Single366(f32);
+    family = "float";
+    model = |x| *x == 36.6f32;
+    class = |s| class_num_str(s, Some(36.6f32 as f64), Some(36.6f32 as f64));
+
+    #[nutype(validate(greater_or_equal = 36.6, less_or_equal = 41.1), derive(Debug, Arbitrary))]
+    struct F32BodyTemp(f32);
+    family = "float";
+    model = |x| *x >= 36.6f32 && *x <= 41.1f32;
+    class = |s| class_num_str(s, Some(36.6f32 as f64), Some(41.1f32 as f64));
+
+    #[nutype(validate(finite, greater_or_equal = 36.6, less_or_equal = 41.1), derive(Debug, Arbitrary))]
+    struct F64BodyTemp(f64);
+    family = "float";
+    model = |x| x.is_finite() && *x >= 36.6 && *x <= 41.1;
+    class = |s| class_num_str(s, Some(36.6f64 as f64), Some(41.1f64 as f64));
+
+    #[nutype(validate(greater_or_equal = -41.1, less_or_equal = -36.6), derive(Debug, Arbitrary))]
+    struct F64NegBody(f64);
+    family = "float";
+    model = |x| *x >= -41.1 && *x <= -36.6;
+    class = |s| class_num_str(s, Some(-41.1f64 as f64), Some(-36.6f64 as f64));
+
+    #[nutype(validate(greater_or_equal = 0.7, less_or_equal = 0.9), derive(Debug, Arbitrary))]
+    struct F64Sevenths(f64);
+    family = "float";
+    model = |x| *x >= 0.7 && *x <= 0.9;
+    class = |s| class_num_str(s, Some(0.7f64 as f64), Some(0.9f64 as f64));
+
+    #[nutype(validate(greater = 0.3, less = 0.6), derive(Debug, Arbitrary))]
+    struct F32Thirds(f32);
+    family = "float";
+    model = |x| *x > 0.3f32 && *x < 0.6f32;
+    class = |s| class_num_str(s, Some(0.3f32 as f64), Some(0.6f32 as f64));
+
+    #[nutype(validate(greater_or_equal = 1000000.1, less_or_equal = 1000000.2), derive(Debug, Arbitrary))]
+    struct F64LargeNarrow(f64);
+    family = "float";
+    model = |x| *x >= 1000000.1 && *x <= 1000000.2;
+    class = |s| class_num_str(s, Some(1000000.1f64 as f64), Some(1000000.2f64 as f64));
+
+    #[nutype(validate(greater_or_equal = 1e-30, less_or_equal = 3e-30), derive(Debug, Arbitrary))]
+    struct F32TinyRange(f32);
+    family = "float";
+    model = |x| *x >= 1e-30f32 && *x <= 3e-30f32;
+    class = |s| class_num_str(s, Some(1e-30f32 as f64), Some(3e-30f32 as f64));
+
+    #[nutype(validate(greater_or_equal = 0.0, less_or_equal = 1e-310), derive(Debug, Arbitrary))]
+    struct F64SubnormalRange(f64);
+    family = "float";
+    model = |x| *x >= 0.0 && *x <= 1e-310;
+    class = |s| class_num_str(s, Some(0.0f64 as f64), Some(1e-310f64 as f64));
+
+    #[nutype(validate(greater_or_equal = -0.3, less_or_equal = 0.0), derive(Debug, Arbitrary))]
+    struct F32NegToZero(f32);
+    family = "float";
+    model = |x| *x >= -0.3f32 && *x <= 0.0;
+    class = |s| class_num_str(s, Some(-0.3f32 as f64), Some(0.0f32 as f64));
+
+    #[nutype(validate(greater = 0.0, less_or_equal = 0.3), derive(Debug, Arbitrary))]
+    struct F64ZeroToPos(f64);
+    family = "float";
+    model = |x| *x > 0.0 && *x <= 0.3;
+    class = |s| class_num_str(s, Some(0.0f64 as f64), Some(0.3f64 as f64));
+
+    #[nutype(validate(greater_or_equal = -0.0, less_or_equal = 0.0), derive(Debug, Arbitrary))]
+    struct F64AroundZero(f64);
+    family = "float";
+    model = |x| *x == 0.0;
+    class = |s| class_num_str(s, Some(0.0f64 as f64), Some(0.0f64 as f64));
+
+    #[nutype(validate(greater_or_equal = 0.1), derive(Debug, Arbitrary))]
+    struct F32Ge01(f32);
+    family = "float";
+    model = |x| *x >= 0.1f32;
+    class = |s| class_num_str(s, Some(0.1f32 as f64), None);
+
+    #[nutype(validate(less_or_equal = -0.7), derive(Debug, Arbitrary))]
+    struct F64LeNeg07(f64);
+    family = "float";
+    model = |x| *x <= -0.7;
+    class = |s| class_num_str(s, None, Some(-0.7f64 as f64));
+
+    #[nutype(validate(greater = 36.6), derive(Debug, Arbitrary))]
+    struct F32Gt366(f32);
+    family = "float";
+    model = |x| *x > 36.6f32;
+    class = |s| class_num_str(s, Some(36.6f32 as f64), None);
+
+    #[nutype(validate(less = 0.1), derive(Debug, Arbitrary))]
+    struct F64Lt01(f64);
+    family = "float";
+    model = |x| *x < 0.1;
+    class = |s| class_num_str(s, None, Some(0.1f64 as f64));
+
+    #[nutype(validate(finite, less = 0.1), derive(Debug, Arbitrary))]
+    struct F64FiniteLt01(f64);
+    family = "float";
+    model = |x| x.is_finite() && *x < 0.1;
+    class = |s| class_num_str(s, None, Some(0.1f64 as f64));
+
+    #[nutype(validate(finite, greater_or_equal = 0.1), derive(Debug, Arbitrary))]
+    struct F32FiniteGe01(f32);
+    family = "float";
+    model = |x| x.is_finite() && *x >= 0.1f32;
+    class = |s| class_num_str(s, Some(0.1f32 as f64), None);
+
+    #[nutype(validate(finite, greater_or_equal = -1e15, less_or_equal = 1e-3), derive(Debug, Arbitrary))]
+    struct F64WideMixed(f64);
+    family = "float";
+    model = |x| x.is_finite() && *x >= -1e15 && *x <= 1e-3;
+    class = |s| class_num_str(s, Some(-1e15f64 as f64), Some(1e-3f64 as f64));
+
+    #[nutype(validate(greater = 999.9, less_or_equal = 1000.1), derive(Debug, Arbitrary))]
+    struct F32ThousandRange(f32);
+    family = "float";
+    model = |x| *x > 999.9f32 && *x <= 1000.1f32;
+    class = |s| class_num_str(s, Some(999.9f32 as f64), Some(1000.1f32 as f64));
+
+    #[nutype(validate(greater_or_equal = core::f64::consts::E, less = core::f64::consts::PI), derive(Debug, Arbitrary))]
+    struct F64ExprBounds(f64);
+    family = "float";
+    model = |x| *x >= core::f64::consts::E && *x < core::f64::consts::PI;
+    class = |s| class_num_str(s, Some(core::f64::consts::E as f64), Some(core::f64::consts::PI as f64));
+
+    #[nutype(validate(greater_or_equal = -128, less_or_equal = -128), derive(Debug, Arbitrary))]
+    struct I8OnlyMinIncl(i8);
+    family = "integer";
+    model = |x| *x == -128;
+    class = |s| class_num_str(s, Some(-128 as f64), Some(-128 as f64));
+
+    #[nutype(validate(greater_or_equal = 4294967295), derive(Debug, Arbitrary))]
+    struct U32OnlyMax(u32);
+    family = "integer";
+    model = |x| *x == u32::MAX;
+    class = |s| class_num_str(s, Some(4294967295u32 as f64), None);
+
+    #[nutype(validate(greater = i64::MAX - 1), derive(Debug, Arbitrary))]
+    struct I64GtMaxMinus1(i64);
+    family = "integer";
+    model = |x| *x == i64::MAX;
+    class = |s| class_num_str(s, None, None);
+
+    #[nutype(validate(less = i64::MIN + 1), derive(Debug, Arbitrary))]
+    struct I64LtMinPlus1(i64);
+    family = "integer";
+    model = |x| *x == i64::MIN;
+    class = |s| class_num_str(s, None, None);
+
+    #[nutype(validate(greater = -3, less = 3), derive(Debug, Arbitrary))]
+    struct I16MixedExcl(i16);
+    family = "integer";
+    model = |x| *x > -3 && *x < 3;
+    class = |s| class_num_str(s, Some(-3 as f64), Some(3 as f64));
+
+    #[nutype(validate(greater_or_equal = 250, less = 255), derive(Debug, Arbitrary))]
+    struct U8GeLt(u8);
+    family = "integer";
+    model = |x| *x >= 250 && *x < 255;
+    class = |s| class_num_str(s, Some(250 as f64), Some(255 as f64));
+
+    #[nutype(validate(greater = 2147483600, less_or_equal = 2147483647), derive(Debug, Arbitrary))]
+    struct I32GtLe(i32);
+    family = "integer";
+    model = |x| *x > 2147483600;
+    class = |s| class_num_str(s, Some(2147483600 as f64), None);
+
+    #[nutype(validate(less = 1), derive(Debug, Arbitrary))]
+    struct UsizeLt1(usize);
+    family = "integer";
+    model = |x| *x == 0;
+    class = |s| class_num_str(s, None, Some(1 as f64));
+
+    #[nutype(validate(greater_or_equal = -1, less_or_equal = 1), derive(Debug, Arbitrary))]
+    struct I128Around0(i128);
+    family = "integer";
+    model = |x| *x >= -1 && *x <= 1;
+    class = |s| class_num_str(s, Some(-1 as f64), Some(1 as f64));
+
+    #[nutype(validate(less = (1u64 << 40)), derive(Debug, Arbitrary))]
+    struct U64ShiftExpr(u64);
+    family = "integer";
+    model = |x| *x < (1u64 << 40);
+    class = |s| class_num_str(s, None, None);
+
     // ------------------------------------------------------------------ strings
     #[nutype(derive(Debug, Arbitrary))]
     struct SFree(String);
